@@ -35,6 +35,8 @@ type mxTransport struct {
 	// point where the harness may act "concurrently" with the library call in
 	// progress (e.g. use another connection) while staying deterministic.
 	Hook func(call int)
+	// WriteErr, if set, makes every Write fail with it (the peer is gone).
+	WriteErr error
 }
 
 func mxNewTransport(chunks ...[]byte) *mxTransport {
@@ -70,6 +72,9 @@ func (t *mxTransport) Write(p []byte) (int, error) {
 	defer t.mu.Unlock()
 	if t.closed {
 		return 0, io.ErrClosedPipe
+	}
+	if t.WriteErr != nil {
+		return 0, t.WriteErr
 	}
 	t.Out = append(t.Out, p...)
 	return len(p), nil
